@@ -176,3 +176,16 @@ func genMessage(r *rng) string {
 	}
 	return pool[r.intn(len(pool))]
 }
+
+// attach the function-level generators (compared with the Lean model line by line) to the checks
+func init() {
+	for prop, g := range map[string]func(*Ctx, *rng) []Case{
+		"C06": genC06, "C07": genC07, "C10": genC10, "C11": genC11, "C12": genC12, "C17": genC17, "C20": genC20,
+		"C02": func(c *Ctx, r *rng) []Case { return genTrees(c, r, "C02") },
+		"C05": func(c *Ctx, r *rng) []Case { return genTrees(c, r, "C05") },
+	} {
+		checks[prop].Gen = g
+	}
+	checks["C19"] = &Check{Prop: "C19", Gen: genC19, Impl: runImplAPI, Theorems: []string{"C19.placeholder"},
+		Rule: "valid files produced for the test (objects, trees, commits, index, HEAD, branch files, config, reflog) and every thinned truncation, random single-byte deletions and substitutions (0x00 0x0a 0x20 0x2f 0xff digits, +-1), swapped and self-referential object files, header corner cases; each decoder is called in-process under recover and must answer ok/err exactly like the model"}
+}
